@@ -34,10 +34,56 @@ pub fn check(c: &Case, ctx: &mut Ctx) -> Result<(), Failure> {
 }
 
 pub fn check_with(c: &Case, ctx: &mut Ctx, via_default: bool) -> Result<(), Failure> {
+    let mut ind = if via_default { Ind::default_of(c.cfg.kind) } else { Ind::build(c.cfg.kind, &c.cfg.params()).map_err(|_| Failure { signature: "C03:harness".into(), detail: "HARNESS build".into() })? };
+    check_on(c, ctx, &mut ind)
+}
+
+/// a case with reset() calls: `resets[j]` = number of inputs fed before the j-th reset. Each stretch between
+/// resets is judged as a stream of its own (t counts inputs since the reset, as the property defines it) on the
+/// *same* instance.
+#[derive(Clone, Debug, Serialize, Deserialize)]
+pub struct RCase {
+    pub case: Case,
+    pub resets: Vec<usize>,
+}
+
+pub fn check_resets(r: &RCase, ctx: &mut Ctx) -> Result<(), Failure> {
+    let c = &r.case;
+    let mut ind = Ind::build(c.cfg.kind, &c.cfg.params()).map_err(|_| Failure { signature: "C03:harness".into(), detail: "HARNESS build".into() })?;
+    
+    let len = if c.scalar { c.xs.len() } else { c.bars.len() };
+    let mut cuts: Vec<usize> = r.resets.iter().copied().filter(|&x| x > 0 && x < len).collect();
+    cuts.sort_unstable();
+    cuts.dedup();
+    cuts.push(len);
+    let mut a = 0usize;
+    for (j, &b) in cuts.iter().enumerate() {
+        if j > 0 {
+            ind.reset();
+            
+            ctx.label("segments_after_reset");
+        }
+        let mut seg = c.clone();
+        if c.scalar {
+            seg.xs = c.xs[a..b].to_vec();
+        } else {
+            seg.bars = c.bars[a..b].to_vec();
+        }
+        // only the last stretch (always one after a reset) is counted, so that a case counts once
+        let was = ctx.counting;
+        ctx.counting = was && j + 1 == cuts.len();
+        let res = check_on(&seg, ctx, &mut ind);
+        ctx.counting = was;
+        res?;
+        a = b;
+    }
+    Ok(())
+}
+
+pub fn check_on(c: &Case, ctx: &mut Ctx, ind: &mut Ind) -> Result<(), Failure> {
     let k = c.cfg.kind;
     let p = c.cfg.params();
     let n = c.cfg.n();
-    let mut ind = if via_default { Ind::default_of(k) } else { Ind::build(k, &p).map_err(|_| Failure { signature: "C03:harness".into(), detail: "HARNESS build".into() })? };
     let len = if c.scalar { c.xs.len() } else { c.bars.len() };
     let name = k.name();
     let mut fp = Fp::new("C03");
@@ -307,6 +353,29 @@ fn tiny_strategy() -> BoxedStrategy<Case> {
     .boxed()
 }
 
+fn reset_strategy() -> BoxedStrategy<RCase> {
+    prop_oneof![
+        cfg_among(&SK, 40, no_mult)
+            .prop_flat_map(|cfg| {
+                let n = cfg.n();
+                (Just(cfg), prop_oneof![3 => stream(Domain::PositiveGrid, 4 * n + 10, 8 * n + 60), 1 => stream(Domain::Positive, 4 * n + 10, 8 * n + 60)], proptest::collection::vec(any::<u16>(), 1..4))
+            })
+            .prop_map(|(cfg, s, pk)| {
+                let resets = crate::hist::reset_positions(cfg.n(), s.vals.len(), &pk);
+                RCase { case: Case { cfg, scalar: true, xs: xs(&s.vals), bars: vec![], stride: 0 }, resets }
+            }),
+        cfg_among(&BK, 40, no_mult)
+            .prop_flat_map(|cfg| {
+                let n = cfg.n();
+                (Just(cfg), prop_oneof![3 => bar_stream(true, 4 * n + 10, 8 * n + 60), 1 => bar_stream(false, 4 * n + 10, 8 * n + 60)], proptest::collection::vec(any::<u16>(), 1..4))
+            })
+            .prop_map(|(cfg, s, pk)| {
+                let resets = crate::hist::reset_positions(cfg.n(), s.bars.len(), &pk);
+                RCase { case: Case { cfg, scalar: false, xs: vec![], bars: s.bars, stride: 0 }, resets }
+            }),
+    ]
+    .boxed()
+}
 fn strategy(lo: usize, hi: usize, extra: usize) -> BoxedStrategy<Case> {
     prop_oneof![
         cfg_among(&SK, 1100, no_mult)
@@ -383,6 +452,9 @@ pub fn run(g: &mut Global) {
     let hi = g.tier.pick(400usize, 3000usize);
     g.random("random", g.tier.pick(60000, 400000), &move || strategy(1, hi, 0), &check);
     g.random("long", g.tier.pick(48, 600), &|| strategy(5000, 10000, 0), &check);
+    // the same formulas after reset() (the property counts t "since construction/reset"): resets at multiples of
+    // the period, next to them, anywhere, and a second reset before the window refilled
+    g.random("resets", g.tier.pick(20000, 150000), &reset_strategy, &check_resets);
     g.random("tiny_units", g.tier.pick(8000, 60000), &tiny_strategy, &check);
     g.random("huge_units", g.tier.pick(6000, 40000), &huge_strategy, &check);
     // windows of 1024 slots and more (powers of two and their neighbours), the window references every
